@@ -26,7 +26,24 @@ func MutateSpec(d D, s *fitmodel.Stream) *fitmodel.Stream {
 	for k := 0; k < n && len(out.Recs) > 0; k++ {
 		i := d.Int(0, len(out.Recs)-1, "mrec")
 		r := &out.Recs[i]
-		switch d.Int(0, 13, "mkind") {
+		switch d.Int(0, 14, "mkind") {
+		case 14:
+			// a look-alike redefinition: the same field list for another
+			// message, right after the data that used the original
+			if r.IsDef && i+1 < len(out.Recs) {
+				dup := *r
+				dup.Fields = append([]fitmodel.FieldDef(nil), r.Fields...)
+				dup.Global = uint16(d.Int(0, 300, "lookalike"))
+				j := i + 1
+				for j < len(out.Recs) && !out.Recs[j].IsDef {
+					j++
+				}
+				tail := append([]fitmodel.Rec{dup}, out.Recs[j:]...)
+				if j > i+1 {
+					tail = append([]fitmodel.Rec{dup, out.Recs[i+1]}, out.Recs[j:]...)
+				}
+				out.Recs = append(out.Recs[:j], tail...)
+			}
 		case 0:
 			if r.IsDef && len(r.Fields) > 0 {
 				f := &r.Fields[d.Int(0, len(r.Fields)-1, "mf")]
